@@ -77,6 +77,20 @@ type rT struct {
 	In      *rInner  `json:"in" xml:"in"`
 }
 
+// a struct with a String method (value receiver; a nil *rStringer panics inside it) and a struct that is an error
+type rStringer struct {
+	ID   int    `json:"id" xml:"id"`
+	Name string `json:"name" xml:"name"`
+}
+
+func (r rStringer) String() string { return r.Name + "#" + fmt.Sprint(r.ID) }
+
+type rErrVal struct {
+	Code int `json:"code" xml:"code"`
+}
+
+func (e rErrVal) Error() string { return "E" + fmt.Sprint(e.Code) }
+
 func decodeVal(spec string) (v any, ok bool) {
 	if spec == "nil" {
 		return nil, true
@@ -132,6 +146,15 @@ func decodeVal(spec string) (v any, ok bool) {
 				A string
 				F func()
 			}{"a", func() {}}, true
+		// values whose types have methods a renderer could be tempted to call: they are data like any other struct
+		case "stringer":
+			return rStringer{ID: 7, Name: "acct"}, true
+		case "nilstringer":
+			return (*rStringer)(nil), true
+		case "error":
+			return errors.New("boom"), true
+		case "errstruct":
+			return rErrVal{Code: 3}, true
 		}
 	}
 	return nil, false
@@ -1277,7 +1300,7 @@ func rValue(r *Rand) string {
 	case x < 17:
 		return "nil"
 	default:
-		return "u:" + r.Pick([]string{"chan", "func", "mapchan", "complex", "nan", "structfunc"})
+		return "u:" + r.Pick([]string{"chan", "func", "mapchan", "complex", "nan", "structfunc", "stringer", "nilstringer", "error", "errstruct", "stringer", "errstruct"})
 	}
 }
 
